@@ -146,6 +146,9 @@ func main() {
 				sort.Ints(is)
 				fmt.Println(fo.FullName(), is)
 			}
+			for fo := range io.lens {
+				fmt.Println("lens:", fo.FullName())
+			}
 		case "purex2j":
 			for _, sp := range subs {
 				if sp.name == "x2j" && strings.HasSuffix(sp.dir, "x2j-wrapper") {
